@@ -330,14 +330,16 @@ func (self *BinaryConv) unmarshalMap(ctx context.Context, resp http.ResponseSett
 		return wrapError(meta.ErrRead, "parse MapKey Tag error", err)
 	}
 	mapKeyDesc := fd.Key()
-	isIntKey := (mapKeyDesc.Type() == proto.INT32) || (mapKeyDesc.Type() == proto.INT64) || (mapKeyDesc.Type() == proto.UINT32) || (mapKeyDesc.Type() == proto.UINT64)
-	if isIntKey {
+	// JSON object keys must be strings: quote every key kind that is not printed as a string already
+	// (string keys, and int64 keys when Int642String makes unmarshalSingular quote them)
+	quoteKey := mapKeyDesc.Type() != proto.STRING && !(mapKeyDesc.Type() == proto.INT64 && self.opts.Int642String)
+	if quoteKey {
 		*out = append(*out, '"')
 	}
 	if self.unmarshalSingular(ctx, resp, p, out, mapKeyDesc) != nil {
 		return wrapError(meta.ErrRead, "parse MapKey Value error", err)
 	}
-	if isIntKey {
+	if quoteKey {
 		*out = append(*out, '"')
 	}
 	*out = json.EncodeObjectColon(*out)
@@ -372,13 +374,13 @@ func (self *BinaryConv) unmarshalMap(ctx context.Context, resp http.ResponseSett
 		if keyErr != nil {
 			return wrapError(meta.ErrRead, "parse MapKey Tag error", err)
 		}
-		if isIntKey {
+		if quoteKey {
 			*out = append(*out, '"')
 		}
 		if self.unmarshalSingular(ctx, resp, p, out, mapKeyDesc) != nil {
 			return wrapError(meta.ErrRead, "parse MapKey Value error", err)
 		}
-		if isIntKey {
+		if quoteKey {
 			*out = append(*out, '"')
 		}
 		*out = json.EncodeObjectColon(*out)
